@@ -84,6 +84,8 @@ impl Family for C16 {
       ("delay_us", Json::Int(if (kind == "delay" || kind == "delay-two-sources") && rng.below(4) == 0 { *rng.pick(&[300i64, 800, 1500, 99_999]) } else { 0 })),
       // sample / debounce: virtual time the subscriber spends inside every item's callback (0 = none);
       // whoever else could hand the same item on meanwhile (a flush at completion, a second tick) does
+      // timer / delay with a zero period: the event is due at once
+      ("zero_period", Json::Bool((kind == "timer" || kind == "delay") && rng.below(8) == 0)),
       ("consumer_work_ms", Json::Int(if (kind == "sample" || kind == "debounce") && rng.below(3) == 0 { *rng.pick(&[d / 2 + 3, d + 9, 2 * d + 5]) } else { 0 })),
     ])
   }
@@ -122,7 +124,9 @@ impl Family for C16 {
       return RunOut::invalid();
     }
     // the period of the delay kinds
-    let delay_dur = if delay_us > 0 { Duration::from_micros(delay_us as u64) } else { ms(d) };
+    let zero_period = w.get("zero_period").is_some() && w.b("zero_period") && (kind == "timer" || kind == "delay");
+    let delay_dur = if zero_period { Duration::ZERO } else if delay_us > 0 { Duration::from_micros(delay_us as u64) } else { ms(d) };
+    let timer_dur = if zero_period { Duration::ZERO } else { ms(d) };
     let mut delays: Vec<i64> = w.a("consumer_delays_ms").iter().filter_map(|x| x.as_i64()).collect();
     delays.resize(n_items as usize, 0);
     if kind != "timeout" {
@@ -210,7 +214,7 @@ impl Family for C16 {
           }
         }
         "timer" => {
-          let o = observables::timer(ms(d), schedulers::new_thread_scheduler()).map(|_| Val::Unit);
+          let o = observables::timer(timer_dur, schedulers::new_thread_scheduler()).map(|_| Val::Unit);
           mark("subscribe");
           let _sub = rec2.subscribe(&o);
           if resub {
@@ -302,7 +306,7 @@ impl Family for C16 {
         v.push(Violation::new("event-after-terminal", blame, b));
       }
       let t0 = t_of("subscribe").unwrap_or(0);
-      let dn = if (kind == "delay" || kind == "delay-two-sources") && delay_us > 0 { delay_us as u64 * 1000 } else { d as u64 * MS };
+      let dn = if zero_period { 0 } else if (kind == "delay" || kind == "delay-two-sources") && delay_us > 0 { delay_us as u64 * 1000 } else { d as u64 * MS };
       let shown = evs.iter().map(|r| format!("{}@{:.1}ms", r.ev.show(), r.t as f64 / 1e6)).collect::<Vec<_>>().join(" ");
       let at = |t: u64, want: u64| -> bool { if jitter { t >= want } else { t == want } };
       match kind.as_str() {
